@@ -13,13 +13,15 @@ class RunClass(stateworld.StateWorld):
 def gen_config(rng, tier):
     n = rng.choice([1, 2, 2, 2, 3, 3, 3, 3, 4, 4, 4, 5, 6] if tier == "thorough" else
                    [1, 2, 2, 2, 3, 3, 3, 3, 4, 4, 5])
+    if rng.random() < 0.02:
+        n = rng.choice([7, 8, 9])      # a few runs on larger registers (word / byte boundaries, wider tableaux)
     ops = {"new": 1.0, "measure": 4.0}
     for k, w in (("rot", 2.0), ("tmap", 1.5), ("gate", 1.0), ("copy", 0.5), ("setr", 0.7),
                  ("remeasure", 2.0), ("resample", 0.6), ("relayout", 0.5)):
         if rng.random() < 0.75:
             ops[k] = w * rng.choice([0.5, 1.0, 2.0])
     faults = [f for f in ("coin_force", "remeasure", "view_operand") if rng.random() < 0.7]
-    return {"n": n, "steps": rng.randrange(4, 30) if tier != "thorough" else rng.randrange(4, 70), "ops": ops, "faults": faults,
+    return {"n": n, "steps": (lambda x: min(x, 14) if n >= 6 else x)(rng.randrange(4, 30) if tier != "thorough" else rng.randrange(4, 70)), "ops": ops, "faults": faults,
             "flags": ["c06"], "max_slots": rng.choice([1, 2, 3])}
 
 
